@@ -24,7 +24,9 @@ type StrategyManager struct {
 	rngMu sync.Mutex
 	rng   *rand.Rand
 
-	// Round-robin state per route host
+	// Round-robin state per route host.
+	// roundRobinMu makes reading and advancing an index one step.
+	roundRobinMu      sync.Mutex
 	roundRobinIndexes *sync.Map // map[string]int
 
 	// Connection counters for least-connections strategy
@@ -184,11 +186,13 @@ func (sm *StrategyManager) roundRobinNextBackend(log logr.Logger, routeHost stri
 	}
 
 	// Get next backend in round-robin order
+	sm.roundRobinMu.Lock()
 	value, _ := sm.roundRobinIndexes.LoadOrStore(routeHost, 0)
 	index := value.(int)
+	sm.roundRobinIndexes.Store(routeHost, index+1)
+	sm.roundRobinMu.Unlock()
 
 	backend := backends[index%len(backends)]
-	sm.roundRobinIndexes.Store(routeHost, index+1)
 
 	return backend, log, true
 }
